@@ -296,6 +296,16 @@ class ConstantStreamGenerator(Elaboratable):
                                     with m.Case(i):
                                         m.d.comb += valid_due_to_max_length.eq(Const(1).replicate(i))
 
+                                        # Big-endian words carry their first byte in the most significant
+                                        # of their occupied byte lanes; so a truncated word keeps its upper lanes.
+                                        if (self._endianness == "big") and isinstance(self._data, (bytes, bytearray)):
+                                            in_full_word = Const(1).replicate(i) << (bytes_per_word - i)
+                                            in_last_word = Const(1).replicate(i) << max(valid_bits_last_word - i, 0)
+                                            with m.If(ending_due_to_data_length):
+                                                m.d.comb += valid_due_to_max_length.eq(in_last_word)
+                                            with m.Else():
+                                                m.d.comb += valid_due_to_max_length.eq(in_full_word)
+
 
                             # Our most complex logic is when both of our end conditions are met; we'll need
                             # to take the lesser of the two validities. AND'ing these will work to accept the
